@@ -339,3 +339,8 @@ def escape_forms(ctx, n):
                 parts.append(r.choice(['a', 'b', 'xy', 'k1', '\u00e9', '_']))
         out.append(''.join(parts))
     return out
+
+
+def scalar_roots():
+    """one document of every scalar kind (documents whose root is not a container)"""
+    return [('u', 5), ('u', 0), ('i', -1), ('u', 2), ('s', b'a'), ('s', b''), ('b', True), ('b', False), ('n',), ('d', gen.float_to_bits(1.5))]
